@@ -6,21 +6,28 @@ import argparse, hashlib, itertools, json, os, shutil, subprocess, sys, time
 sys.path.insert(0, "/verif/lib")
 from common import *
 
-INPUTS = ["main", "a", "b", "embed", "cfile", "header", "tag", "decl", "x", "abi", "trace"]          # components of the version vector
-EVENTS = ["edit-main", "edit-a", "edit-b", "edit-embed", "edit-cfile", "edit-header", "edit-decl", "toggle-tag", "touch-b", "noop", "clear-cache", "edit-b-samesize", "set-x", "toggle-abi", "toggle-trace"]
+INPUTS = ["main", "a", "b", "embed", "cfile", "header", "tag", "decl", "x", "abi", "trace", "cgoh", "cgoc", "ext"]          # components of the version vector
+EVENTS = ["edit-main", "edit-a", "edit-b", "edit-embed", "edit-cfile", "edit-header", "edit-decl", "toggle-tag", "touch-b", "noop", "clear-cache", "edit-b-samesize", "set-x", "toggle-abi", "toggle-trace", "edit-cgo-header", "edit-cgo-c", "edit-ext"]
 THOROUGH_EVENTS = EVENTS + ["edit-b-keep-mtime"]
 
 
 def files(vec):
     v = vec
     return {
-        "go.mod": "module vt\n\ngo 1.24\n",
+        "go.mod": "module vt\n\ngo 1.24\n\nrequire ext v0.0.0\n\nreplace ext => ../ext\n",
+        # a dependency in another module, replaced by a local directory: its constant, type layout and code are compiled into / called from b
+        "../ext/go.mod": "module ext\n\ngo 1.24\n",
+        "../ext/e/e.go": "package e\n\nconst Ver = %d\n\ntype Rec struct{ Pad [%d]byte }\n\n//go:noinline\nfunc Get() int { return %d }\n" % (v["ext"], v["ext"], v["ext"]),
+        # a cgo package with a header and a C file of its own
+        "c/c.go": 'package c\n\n/*\n#include "lim.h"\nint vt_cgo_c(void);\n*/\nimport "C"\n\nfunc Report() {\n\tprintln("cgoh", int(C.VT_LIM))\n\tprintln("cgoc", int(C.vt_cgo_c()))\n}\n',
+        "c/impl.c": '#include "lim.h"\nint vt_cgo_c(void) { return %d; }\n' % v["cgoc"],
+        "c/lim.h": "#ifndef VT_LIM\n#define VT_LIM %d\n#endif\n" % v["cgoh"],
         "main.go": 'package main\n\nimport "vt/a"\n\nconst mainVer = %d\n\nfunc main() {\n\tprintln("main", mainVer)\n\ta.Report()\n\tprintln("sum", a.Sum(a.Big{A: 1, B: 20, C: 300, D: 4000, F: 0.5}, 7))\n}\n' % v["main"],
-        "a/a.go": 'package a\n\nimport (\n\t_ "unsafe"\n\n\t"vt/b"\n)\n\nconst LLGoFiles = "wrap/wrap.c"\n\n//go:linkname cver C.vt_cver\nfunc cver() int32\n\n//go:linkname hver C.vt_hver\nfunc hver() int32\n\n'
-                  'const aVer = %d\n\nfunc Report() {\n\tprintln("a", aVer)\n\tprintln("cfile", cver())\n\tprintln("header", hver())\n\tb.Report()\n}\n\ntype Big = b.Big\n\n//go:noinline\nfunc Sum(x Big, k int) int { return b.Sum(k, x) + k }\n' % v["a"],
+        "a/a.go": 'package a\n\nimport (\n\t_ "unsafe"\n\n\t"vt/b"\n\t"vt/c"\n)\n\nconst LLGoFiles = "wrap/wrap.c"\n\n//go:linkname cver C.vt_cver\nfunc cver() int32\n\n//go:linkname hver C.vt_hver\nfunc hver() int32\n\n'
+                  'const aVer = %d\n\nfunc Report() {\n\tprintln("a", aVer)\n\tprintln("cfile", cver())\n\tprintln("header", hver())\n\tc.Report()\n\tb.Report()\n}\n\ntype Big = b.Big\n\n//go:noinline\nfunc Sum(x Big, k int) int { return b.Sum(k, x) + k }\n' % v["a"],
         "a/wrap/wrap.c": '#include "wrap.h"\nint vt_cver(void) { return %d; }\nint vt_hver(void) { return VT_HVER; }\n' % v["cfile"],
         "a/wrap/wrap.h": "#define VT_HVER %d\n" % v["header"],
-        "b/b.go": 'package b\n\nimport (\n\t_ "embed"\n\n\t"vt/d"\n)\n\n//go:embed data.txt\nvar data string\n\nconst bVer = %d\n\nfunc Report() {\n\tprintln("b", bVer)\n\tprintln("embed", data)\n\tprintln("tag", tagVer)\n\tprintln("decl", d.Ver, len(d.Rec{}.Pad))\n\tprintln("x", xVar)\n}\n\nvar xVar = "unset"\n\ntype Big struct {\n\tA, B, C, D int64\n\tF float64\n}\n\n//go:noinline\nfunc Sum(k int, x Big) int { return int(x.A+x.B+x.C+x.D) + int(x.F*2) + k }\n' % v["b"],
+        "b/b.go": 'package b\n\nimport (\n\t_ "embed"\n\n\t"ext/e"\n\t"vt/d"\n)\n\n//go:embed data.txt\nvar data string\n\nconst bVer = %d\n\nfunc Report() {\n\tprintln("b", bVer)\n\tprintln("embed", data)\n\tprintln("tag", tagVer)\n\tprintln("decl", d.Ver, len(d.Rec{}.Pad))\n\tprintln("x", xVar)\n\tprintln("ext", e.Ver, len(e.Rec{}.Pad), e.Get())\n}\n\nvar xVar = "unset"\n\ntype Big struct {\n\tA, B, C, D int64\n\tF float64\n}\n\n//go:noinline\nfunc Sum(k int, x Big) int { return int(x.A+x.B+x.C+x.D) + int(x.F*2) + k }\n' % v["b"],
         # a declaration-only package (the usual shape of llgo binding packages): emits no code of its own, its constants and layouts are compiled into its importers
         "d/d.go": 'package d\n\nconst LLGoPackage = "decl"\n\nconst Ver = %d\n\ntype Rec struct{ Pad [%d]byte }\n' % (v["decl"], v["decl"]),
         "b/data.txt": "e%d" % v["embed"],
@@ -30,7 +37,7 @@ def files(vec):
 
 
 def expected(vec):
-    return "main %d\na %d\ncfile %d\nheader %d\nb %d\nembed e%d\ntag %d\ndecl %d %d\nx x%d\nsum 4336\n" % (vec["main"], vec["a"], vec["cfile"], vec["header"], vec["b"], vec["embed"], vec["tag"], vec["decl"], vec["decl"], vec["x"]) + "trace vt/a.Report %d\ntrace vt/b.Report %d\n" % (vec["trace"], vec["trace"])
+    return "main %d\na %d\ncfile %d\nheader %d\ncgoh %d\ncgoc %d\nb %d\nembed e%d\ntag %d\ndecl %d %d\nx x%d\next %d %d %d\nsum 4336\n" % (vec["main"], vec["a"], vec["cfile"], vec["header"], vec["cgoh"], vec["cgoc"], vec["b"], vec["embed"], vec["tag"], vec["decl"], vec["decl"], vec["x"], vec["ext"], vec["ext"], vec["ext"]) + "trace vt/a.Report %d\ntrace vt/b.Report %d\n" % (vec["trace"], vec["trace"])
 
 
 class Undecided(Exception):
@@ -69,7 +76,8 @@ class World:
     def apply(self, ev):
         v = self.vec
         bump = {"edit-main": ("main", "main.go"), "edit-a": ("a", "a/a.go"), "edit-b": ("b", "b/b.go"), "edit-embed": ("embed", "b/data.txt"),
-                "edit-decl": ("decl", "d/d.go"), "edit-cfile": ("cfile", "a/wrap/wrap.c"), "edit-header": ("header", "a/wrap/wrap.h"), "edit-b-samesize": ("b", "b/b.go"), "edit-b-keep-mtime": ("b", "b/b.go")}
+                "edit-decl": ("decl", "d/d.go"), "edit-cfile": ("cfile", "a/wrap/wrap.c"), "edit-header": ("header", "a/wrap/wrap.h"), "edit-b-samesize": ("b", "b/b.go"), "edit-b-keep-mtime": ("b", "b/b.go"),
+                "edit-cgo-header": ("cgoh", "c/lim.h"), "edit-cgo-c": ("cgoc", "c/impl.c"), "edit-ext": ("ext", "../ext/e/e.go")}
         if ev in bump:
             k, rel = bump[ev]
             v[k] = v[k] % 8 + 1          # single digit: the file keeps its size
@@ -237,9 +245,10 @@ if __name__ == "__main__":
         hists = [list(h) for d in range(1, depth + 1) for h in itertools.product(evs, repeat=d)]
     else:
         # quick: every event from the initial state, every edit after a cache clear and before a no-op rebuild, and every ordered pair of the package edits
-        edits = [e for e in evs if e.startswith("edit-") or e in ("toggle-tag", "set-x")]
+        edits = [e for e in evs if (e.startswith("edit-") and e not in ("edit-b-samesize", "edit-b-keep-mtime")) or e in ("toggle-tag", "set-x")]
         hists = [[e] for e in evs] + [["clear-cache", e] for e in edits] + [["edit-b", "edit-a"], ["edit-a", "edit-b"], ["edit-decl", "edit-decl"], ["edit-decl", "noop"], ["toggle-tag", "edit-b"], ["edit-b", "toggle-tag"], ["edit-b", "noop"], ["toggle-tag", "toggle-tag"],
-                                                                                        ["set-x", "set-x"], ["set-x", "noop"], ["set-x", "edit-b"], ["toggle-abi", "toggle-abi"], ["toggle-abi", "edit-b"], ["toggle-trace", "toggle-trace"], ["toggle-trace", "edit-b"]]
+                                                                                        ["set-x", "set-x"], ["set-x", "noop"], ["set-x", "edit-b"], ["toggle-abi", "toggle-abi"], ["toggle-abi", "edit-b"], ["toggle-trace", "toggle-trace"], ["toggle-trace", "edit-b"],
+                                                                                        ["edit-ext", "edit-ext"], ["edit-ext", "noop"], ["edit-ext", "edit-b"], ["edit-cgo-header", "edit-cgo-c"], ["edit-cgo-c", "edit-cgo-header"], ["edit-cgo-header", "noop"]]
     if thorough:
         hists += [list(h) for h in itertools.product(["edit-b", "edit-embed", "edit-cfile", "toggle-tag", "clear-cache", "noop"], repeat=3)]
     if a.replay:
@@ -301,7 +310,7 @@ if __name__ == "__main__":
         exhaustive=not undecided, undecided_steps=undecided[:5], histories=len(hists), cache_hits_seen=hits, cache_misses_seen=miss, reproducibility_pairs=nrep,
         samples=[hists[len(hists) // 2], hists[-1]],
         rule="world = module main -> a -> b -> d (b embeds a data file and has a build-tag-gated file pair, a has an LLGoFiles C file with a header, d is a declaration-only package whose constant and type layout are compiled into b); events = %s; "
-             "every history of length <=%d%s is replayed on a fresh world with its own cache directory; state = version vector of the inputs (8 files/tags, the -X override of a string in b, the ABI mode with a by-value struct crossing main -> a -> b, LLGO_TRACE); after every step the program "
+             "every history of length <=%d%s is replayed on a fresh world with its own cache directory; state = version vector of the inputs (8 files/tags, the -X override of a string in b, the ABI mode with a by-value struct crossing main -> a -> b, LLGO_TRACE, a cgo package's header and C file, a package of another module replaced by a local directory); after every step the program "
              "built with the cache must print exactly the versions of its inputs (which is what a clean build prints); mtimes are set explicitly and strictly increasing" % (
                  evs, depth, " plus all length-3 histories over 6 events" if thorough else ""))
     rep.assumptions += ["-X string overrides have no command-line spelling in this llgo; they are passed through build.Config.GlobalRewrites by an overlay file in cmd/llgo (tc/src/xrewrite.go) that otherwise runs what `llgo build` runs",
